@@ -49,20 +49,25 @@ type Explorer struct {
 	Check      func(x Exec)
 	Stop       func() bool
 	Pre        func() // run before every execution: brings process-wide state to a canonical point
+	// NoSched: scheduling points (threads the code under test spawns) always take the default choice; SchedCosts: every
+	// non-default scheduling choice costs one deviation, also where the running thread is not enabled (used where the
+	// exploration is about orders, not preemptions)
+	NoSched    bool
+	SchedCosts bool
 	Executions int64
 	MaxPoints  int
 	Capped     bool
 	rootChild  int
 }
 
-func cost(p verifrt.Point) int {
+func (e *Explorer) cost(p verifrt.Point) int {
 	if p.Choice == 0 {
 		return 0
 	}
 	if p.Kind == "map" {
 		return 1
 	}
-	if p.Preempt {
+	if p.Preempt || e.SchedCosts {
 		return 1
 	}
 	return 0
@@ -97,14 +102,19 @@ func (e *Explorer) explore(prefix []int, usedCost int, depth int) {
 	// cost of the prefix part
 	c := 0
 	for i := 0; i < len(prefix) && i < len(x.Points); i++ {
-		c += cost(x.Points[i])
+		c += e.cost(x.Points[i])
 	}
 	for i := len(prefix); i < len(x.Points); i++ {
 		p := x.Points[i]
 		// deviating at point i: alternative choices 1..arity-1
 		dev := 1
-		if p.Kind == "sched" && !p.Preempt {
-			dev = 0 // the running thread is not enabled: switching is free
+		if p.Kind == "sched" {
+			if e.NoSched {
+				continue
+			}
+			if !p.Preempt && !e.SchedCosts {
+				dev = 0 // the running thread is not enabled: switching is free
+			}
 		}
 		if c+dev > e.Bound {
 			// default choice costs nothing; continue scanning later points
